@@ -36,6 +36,8 @@ def equations(year):
         E("1040", "34", "sub", ["24", "33"], cite="34. If line 33 is more than line 24, subtract line 24 from line 33"),
         E("1040", "2b", "carry", src="1040_sb.4", cite="Schedule B line 4: enter the result here and on Form 1040 line 2b"),
         E("1040", "3b", "carry", src="1040_sb.6", cite="Schedule B line 6: enter the total here and on Form 1040 line 3b"),
+        E("1040", "25a", "addinst", inst="w-2", box="box_2", cite="25a. Federal income tax withheld from Form(s) W-2 (box 2 of every W-2)"),
+        E("1040", "1a", "addinst", inst="w-2", box="box_1", cite="1a. Total amount from Form(s) W-2, box 1"),
         # Schedule A
         E("1040_sa", "5e", "minconst", ["5d"], consts=SALT, cite="5e. Enter the smaller of line 5d or $10,000 ($5,000 if married filing separately)"),
         E("1040_sa", "17", "add", ["4", "7", "10", "14", "15", "16"], cite="17. Add the amounts in the far right column for lines 4 through 16"),
